@@ -50,9 +50,9 @@ func (f *Fedi) createItem(host, actorID string, published time.Time, remote bool
 	actID := fmt.Sprintf("https://%s/act/%d", host, n)
 	act := Doc{"id": actID, "type": "Create", "actor": actorID, "object": note}
 	if !published.IsZero() {
-		note["published"] = fmtPublished(published)
+		note["published"] = f.fmtTime(published)
 		if ownTime {
-			act["published"] = fmtPublished(published)
+			act["published"] = f.fmtTime(published)
 		}
 	}
 	f.Serve(noteID, note)
@@ -66,6 +66,26 @@ func (f *Fedi) createItem(host, actorID string, published time.Time, remote bool
 
 // fmtPublished writes a timestamp the way servers do: whole seconds without a fraction, otherwise
 // with one.
+// fmtTime is fmtPublished in the zone notation of the moment: the instant is what counts.
+func (f *Fedi) fmtTime(ts time.Time) string {
+	if f.Zones {
+		switch f.t.Draw(6) {
+		case 1:
+			ts = ts.In(time.FixedZone("", 0)) // +00:00? Go prints Z for offset 0; handled below
+			return strings.Replace(fmtPublished(ts.UTC()), "Z", "+00:00", 1)
+		case 2:
+			ts = ts.In(time.FixedZone("", 2*3600))
+		case 3:
+			ts = ts.In(time.FixedZone("", -5*3600))
+		case 4:
+			ts = ts.In(time.FixedZone("", 5*3600+1800))
+		default:
+			ts = ts.UTC()
+		}
+	}
+	return fmtPublished(ts)
+}
+
 func fmtPublished(ts time.Time) string {
 	if ts.Nanosecond() == 0 {
 		return ts.Format(time.RFC3339)
@@ -123,6 +143,7 @@ func scenC11(r *Run) {
 		}
 		r.S.Probe("c11_big_sources_and_requests")
 	}
+	f.Zones = t.Chance(1, 3)
 	// servers differ in timestamp precision: whole seconds, or fractions of a second
 	subsec := t.Chance(1, 3)
 	base := simEpoch.Add(-72 * time.Hour)
@@ -199,6 +220,12 @@ func scenC11(r *Run) {
 			src.descr = "actor without outbox"
 		}
 		sources = append(sources, src)
+		if t.Chance(1, 8) {
+			// a blank entry in the feed's list (an empty line kept by accident): a source that
+			// resolves to nothing and contributes nothing
+			sources = append(sources, feedSource{input: []string{"", " ", "\t", "  "}[t.Draw(4)], finite: true, descr: "blank entry"})
+			r.S.Probe("c11_blank_feed_entry")
+		}
 	}
 	inputs := make([]string, len(sources))
 	descr := make([]string, len(sources))
@@ -372,5 +399,38 @@ func scenC11(r *Run) {
 	}
 	if ns >= 2 {
 		r.S.Probe("multi_source_feed")
+	}
+	// The list of sources belongs to whoever configured the feed: opening the feed leaves it as it
+	// was, and opening the same feed again gives the same feed.
+	for i, s0 := range sources {
+		if inputs[i] != s0.input {
+			r.Violate("C11", "reopen", "feed-definition-changed-by-opening-it", fmt.Sprintf("entry %d of the feed's source list was %q and is %q after the feed was opened", i, s0.input, inputs[i]))
+			return
+		}
+	}
+	if allFinite && !big && !wide && t.Chance(1, 4) {
+		var sp2 *splicer.Splicer
+		task := r.Spawn("reopen", func() { sp2 = splicer.NewSplicer(inputs) })
+		r.Drive(func() bool { return task.Done }, hugeHorizon, 400000)
+		if !task.Done || sp2 == nil {
+			return
+		}
+		var cont2 pub.Container = sp2
+		var all []RefItem
+		for i := 0; i < 400 && cont2 != nil && !isNilContainer(cont2) && len(all) <= len(ref)+5; i++ {
+			got, next, ok := harvest(fmt.Sprintf("re%d", i), cont2, 7, 0)
+			if !ok {
+				return
+			}
+			all = append(all, got...)
+			cont2 = next
+			if len(got) == 0 {
+				break
+			}
+		}
+		r.S.Probe("c11_feed_opened_again")
+		if !same(all, ref) {
+			r.Violate("C11", "reopen", "same-feed-opened-again-differs", fmt.Sprintf("opened a second time, the feed is [%s]; it is [%s]; sources: %v", show(all), show(ref), descr))
+		}
 	}
 }
